@@ -30,3 +30,27 @@ def _(left, right, output):
                                for t in event_texts() if "write_data_array" in t))
     ensures("confidence_band_names", all(("indicator" in t) == ("_confidence_measure.tif" in t) for t in event_texts() if "write_data_array" in t))
     ensures("left_always_right_when_present", ncalls("write_data_array") >= 2)
+
+
+# what a raster file then CONTAINS: band k of the file is plane k of the DataArray (row, col, band) -- or the array itself when it is
+# 2-D -- and the file has the array's size.  The raster is an uninterpreted writer: write(a, k) stores a as band k (assumed).
+@contract("pandora.common.write_data_array", props=["C19"])
+def _(data_array, filename, dtype, band_names, crs, transform):
+    types(data_array="opaque", filename="str", dtype="opaque", band_names="opaque", crs="opaque", transform="opaque")
+    type_cases(data_array=[{"dataarray": "f32[:,:]", "dims": ["row", "col"]},
+                           {"dataarray": "f32[:,:,:]", "dims": ["row", "col", "indicator"]}])
+    option(no_fuzz=True)
+    raises_never()
+    ensures("file_holds_the_array",
+            (written_file(filename).shape[0] == 1 and written_file(filename).shape[1] == data_array.data.shape[0]
+             and written_file(filename).shape[2] == data_array.data.shape[1]
+             and all(eq(written_file(filename)[0, r, c], data_array.data[r, c])
+                     for r in range(data_array.data.shape[0]) for c in range(data_array.data.shape[1])))
+            if data_array.data.ndim == 2 else
+            (written_file(filename).shape[0] == data_array.data.shape[2] and written_file(filename).shape[1] == data_array.data.shape[0]
+             and written_file(filename).shape[2] == data_array.data.shape[1]
+             and all(eq(written_file(filename)[k, r, c], data_array.data[r, c, k])
+                     for k in range(data_array.data.shape[2])
+                     for r in range(data_array.data.shape[0]) for c in range(data_array.data.shape[1]))))
+    invariant(1, all(eq(written_file(filename)[k, r, c], data_array.data[r, c, k])
+                     for k in range(dsp - 1) for r in range(row) for c in range(col)))
